@@ -430,14 +430,16 @@ func TestC08(t *testing.T) {
 				if diverged {
 					return // the case ended; keep the state machine idle
 				}
+				// all draws first: an action abandoned by rapid in the middle
+				// (a generator giving up) must not leave the failure switched on
 				mode := rapid.SampledFrom([]string{"internal_server", "deprecated"}).Draw(rt, "failureMode")
-				_, _, f := w.do(model.Op{Kind: "SetFailure", Failure: mode})
-				fail(f)
 				op := rapid.SampledFrom([]model.Op{
 					{Kind: "Put", Table: s.Table, Item: g.item(rt)},
 					normOp(g.updateOp(rt, w.m, 0)),
 					{Kind: "Delete", Table: s.Table, Key: g.key(rt)},
 				}).Draw(rt, "opUnderFailure")
+				_, _, f := w.do(model.Op{Kind: "SetFailure", Failure: mode})
+				fail(f)
 				_, status, f := w.do(op)
 				fail(f)
 				if status == stepRejected {
